@@ -19,7 +19,7 @@ T = {
  "C11": ("exploration", "shortest-path solver contracts (distance = delta, INFEASIBLE/UNBOUNDED verdicts, path validity, mutual agreement) vs exact oracle on all small digraphs/grids.", "contract RAC vs exact shortest-path oracle"),
  "C12": ("exploration", "adapter(args) ~ python_impl(args) for the nine accelerated functions with the extension rebuilt from rust/; Rust kernels are external (no Rust verifier installed).", "differential contract RAC python vs rebuilt rust extension"),
  "C13": ("exploration", "kruskal/prim contracts (spanning, acyclic, objective, minimal, statuses) vs spanning-tree enumeration / independent Prim.", "contract RAC vs MST oracles"),
- "C14": ("exploration", "SCC / topological_sort / condense contracts vs Boolean transitive closure on all small digraphs.", "contract RAC vs transitive-closure oracle"),
+ "C14": ("exploration", "topological_sort (Kahn) proved deductively for all node lists of distinct labels and all neighbour functions: OPTIMAL comes with a permutation of the nodes in which every offered edge between nodes points forward, INFEASIBLE with a non-empty set of nodes each having an offered edge from another of them (204 obligations; termination not proved). strongly_connected_components, condense and the *_edges wrappers have no contract within reach (closures over recursion): their contracts are executed vs Boolean transitive closure on all small digraphs, ladders and presentation families.", "pyvc proof of Kahn's counting invariant + contract RAC vs transitive-closure oracle"),
  "C15": ("exploration", "definitions of articulation points, bridges, k-cores, PageRank equation, Louvain partition/modularity as executable postconditions on all small graphs.", "contract RAC vs brute-force definitions"),
  "C16": ("exploration", "solve_knapsack: DP proved deductively against the knapsack recursion for all inputs (370 obligations, int- and float-typed variants; Bellman's principle is a paper lemma); solve_knapsack / solve_bin_pack contracts executed vs exhaustive enumeration, DP and planted-packing oracles.", "pyvc proof of the DP + contract RAC vs brute force / certifying oracles"),
  "C17": ("exploration", "solve_cg / solve_bp contracts (patterns fit, demands met, objective = rolls >= OPT, OPTIMAL only if = OPT) vs exact DP optimum.", "contract RAC vs exact cutting-stock DP"),
@@ -36,6 +36,7 @@ PROVED = {
  "C10": "proved: solve_hungarian optimality certificate (dual-feasible potentials of the zero-padded matrix, tight row-perfect matching, assignment = its restriction, objective = sum of the original entries, no arithmetic on +-inf), assignment_cost; weak duality and the padding argument are paper lemmas",
  "C11": "proved: dijkstra and astar (weight 1, consistent heuristic) real path AND optimality / infeasibility certificate, bfs real path AND minimal-length certificate by levels, dfs real path AND completeness certificate (INFEASIBLE only with a closed goal-free visited set), bellman_ford distance certificate, reconstruct_path, _reconstruct_indexed; no arithmetic on +-inf under finite weights",
  "C13": "proved: kruskal structure via the UnionFind contract, prim grows one tree of input edges with objective = weight sum, check_positive, check_edge_nodes (minimality: bounded only)",
+ "C14": "proved: topological_sort (answer = permutation of the nodes with every offered edge forward, or INFEASIBLE with a closed set of never-output nodes each having a never-output predecessor; in_degree == number of pending edge occurrences as loop invariant); 'forward order => acyclic' and 'such a set => cycle' are paper lemmas; SCC / condense bounded only",
  "C15": "proved: kcore filter (kcore_decomposition by assumed contract)",
  "C16": "proved: solve_knapsack (indices distinct and in range, objective = sum of values, weight test at every OPTIMAL return, DP value = the knapsack recursion KN, integer data unscaled), _to_int_capacity, check_non_negative; Bellman's principle is a paper lemma; solve_bin_pack structural clauses (every item in one bin 0..k-1, no bin overfull beyond 1e-9, load = capacity - remaining, status rule); its 11/9 bound and minimality claims bounded only",
  "C17": "proved: bp._most_fractional, bp._build_solution",
